@@ -85,9 +85,9 @@ def PropSt.update (p : PropSt) (accepted : Bool) (ar : AR) (pos : List Val) : Pr
              else p.events
   { p with events := evs, raw := p.raw + 1 }
 
-/-- `_reset_adaptation`: `start_step ← nsteps`, distribution fields restored. -/
+/-- `_reset_adaptation`: `start_step ← max(nsteps, 1)`, distribution fields restored. -/
 def PropSt.reset (p : PropSt) : PropSt :=
-  if p.cfg.adaptive then { p with startStep := p.nsteps, events := [] } else p
+  if p.cfg.adaptive then { p with startStep := max p.nsteps 1, events := [] } else p
 
 /-! ### `state` / `set_state` -/
 
